@@ -34,14 +34,15 @@ PROPS = {
     },
     "C15": {
         "level": "proof",
-        "verus": ["schema_rules", "types", "impl_args", "subtype"],
-        "explanation": "KERNEL ONLY: eight of the mechanisms behind 'acceptance implies these invariants'. Verus proves for every input: validate_type_system_name reports a name exactly when it starts with `__` and "
+        "verus": ["schema_rules", "types", "impl_args", "subtype", "diagnostics"],
+        "explanation": "KERNEL ONLY: nine of the mechanisms behind 'acceptance implies these invariants'. Verus proves for every input: validate_type_system_name reports a name exactly when it starts with `__` and "
                        "is not located in the built-in file (Reserved Names); BuiltInScalars::record_type_ref says whether a name is a built-in scalar and records it as used-and-defined / used-and-undefined "
                        "according to the schema's type map, all_used compares the counts (the bookkeeping that decides which built-in scalars stay in a valid schema's type map); validate_implementation_field_types "
                        "reports exactly one diagnostic, in order, for every implemented-interface field whose type the implementor's field does not satisfy (IsValidImplementationFieldType), none skipped; validate_implementation_field_arguments (unit impl_args) does the same for the argument contract (missing argument, argument of a different type, additional required argument). "
                        "validate_schema itself: its effect on the type map is `types_after` -- every definition stays except built-in scalar definitions nothing refers to; a built-in scalar that is referred to but not defined is inserted "
                        "as the table's definition -- including that the `all_used` shortcut is harmless (set cardinalities) and that every used-and-undefined name is inserted. Unit subtype: Schema::is_input_type / is_output_type == IsInputType / IsOutputType "
-                       "(wrappers looked through; Scalar, Enum, InputObject resp. everything but InputObject; an undefined name is neither) -- the question the field / argument / variable validators ask to decide 'referenced types have the right kind' -- and Schema::is_subtype == the possible-type relation.",
+                       "(wrappers looked through; Scalar, Enum, InputObject resp. everything but InputObject; an undefined name is neither) -- the question the field / argument / variable validators ask to decide 'referenced types have the right kind' -- and Schema::is_subtype == the possible-type relation. Unit diagnostics: DiagnosticList::into_valid_result / into_result_with / into_result -- `Valid(..)` is constructed exactly when no validator pushed a diagnostic, "
+                       "otherwise every diagnostic is handed back with the partial value.",
         "assumptions": ["HashMap / HashSet / IndexMap / IndexSet behave as maps / sets / sequences keyed by the name's text (shims); retain keeps exactly the entries its closure accepts", "Schema::is_subtype's relation is no longer assumed (unit subtype)",
                         "the per-definition validators called by validate_schema are opaque; assumed of each: it calls record_type_ref for exactly the type references of the definition it is given, and leaves the table alone"],
         "not_decided": ["the property's main clause: that ACCEPTANCE by the whole of validate_schema implies every listed invariant (root types, referenced types exist with the right kind, argument contracts, "
@@ -60,10 +61,10 @@ PROPS = {
     },
     "C17": {
         "level": "proof",
-        "verus": ["types", "field_merging"],
+        "verus": ["types", "field_merging", "diagnostics"],
         "explanation": "KERNEL ONLY (two mechanisms of the operation-validation rules). (1) Field Selection Merging, the type half of SameResponseShape: Verus proves for every schema and every pair of field types that "
                        "same_output_type_shape answers Ok exactly when steps 3-6 of the spec's SameResponseShape hold (Non-Null on both or neither at EVERY wrapper level, List on both or neither, same leaf type, else both composite), "
-                       "and that its unwrapping loop terminates. (2) The rule 'All Variable Usages Are Allowed'. Verus proves for every pair of type references, every default value and every list of variable "
+                       "and that its unwrapping loop terminates. (3, unit diagnostics) `Valid<ExecutableDocument>` is constructed exactly when no rule pushed a diagnostic (into_valid_result). (2) The rule 'All Variable Usages Are Allowed'. Verus proves for every pair of type references, every default value and every list of variable "
                        "definitions that is_variable_usage_allowed == IsVariableUsageAllowed (including the null default), Type::is_assignable_to == AreTypesCompatible, and that validate_variable_usage reports "
                        "exactly when the argument is a variable that is defined and whose usage the rule forbids. Bodies are re-extracted from /repo on every run.",
         "not_decided": ["every other operation-validation rule (the rest of field merging: which pairs of fields are compared, argument equality, the recursion into sub-selections; value literals, fragments, directives, subscriptions, arguments): differential against graphql-js, no oracle inside a contract",
@@ -324,7 +325,7 @@ PROPS = {
     },
     "C07": {
         "level": "proof",
-        "verus": ["parser_core", "parse_common"],
+        "verus": ["parser_core", "parse_common", "diagnostics"],
         "frame": ["peek_while_is_the_plain_loop"],
         "explanation": "Verus proves for parse_type, for every token stream: the returned tree has no error only if the kinds of the significant tokens added to the tree "
                        "are exactly one Type of the grammar Type :: Name | [ Type ] | Name ! | [ Type ] ! (ghost sequence of significant token kinds; ty::parse's postcondition "
@@ -335,6 +336,6 @@ PROPS = {
                        "apollo_compiler::parser::parse_type / parse_field_set, which return Err iff the diagnostic list is non-empty.",
         "assumptions": ['the Lexer contract in the parser_core prelude (items carry the remaining text in order; a measure decreases per item; None only after the limit or at the end; the EOF token is empty and comes when the text is used up; a `{` token is the text "{") is PROVED for the real Lexer::next / Lexer::new in unit `lexer_next`, from the contract of Cursor::advance that unit `lexer` proves; the clause texts are single Python constants shared by the assuming and the proving unit (assume/guarantee by identical text); the primitives of Cursor are proved in unit `cursor`; what remains assumed at the bottom is std (CharIndices::next, str slicing on char boundaries) and "advance never yields a limit error" (frame check)', 'Name tokens produced by the lexer satisfy the Name grammar, so grammar::name::validate_name never reports (proved for Cursor::advance in unit lexer; validate_name itself is a no-op shim here)', 'Parser::peek_n / peek_token_n / peek_data_n (iterator chain over a CLONE of the lexer, `&self`): results unconstrained, parser state untouched', 'rowan GreenNodeBuilder: token() appends text, start/finish/wrap add none; Drop of NodeGuard has no spec', 'recursion limit < usize::MAX'],
         "not_decided": ["that the tokens consumed by parse_selection_set form exactly ONE selection set (selection() and everything below it is now verified for conservation / termination, but the selection GRAMMAR is not specified)",
-                        "the last step of the compiler-side mapping: parse_type / parse_field_set turn a non-empty DiagnosticList into Err (errors.into_result(): closures, not extracted)"],
+                        "that parse_type / parse_field_set call errors.into_result() on the list parse_common filled (the step itself -- Ok iff the list is empty -- is proved in unit diagnostics; the two-line wrappers use generic `impl Into<String>` / `AsRef<Path>` parameters and a closure, not extracted)"],
     },
 }
